@@ -4,6 +4,7 @@ from props import common
 
 FUNCS = ["pce500.emulator:PCE500Emulator.step (delivery gate, halted branch, end-of-interrupt block after RETI; cpu.execute_instruction cut by its contract)",
          "PCE500Emulator.__init__/load_rom (executed)", "pce500.memory:PCE500Memory.read_byte/write_byte/write_bytes/read_long (executed in context)",
+         "PCE500Emulator.step after a really executed OFF / HALT instruction (timers: targets in a window around the cycle, concrete periods)",
          "sc62015.pysc62015.instr.instructions:IR.lift/RETI.lift (IR/RETI inverse lemma, shared with C05)"]
 
 
@@ -14,7 +15,9 @@ def run(prop, tier):
     units = [dict(fn="unit_gate", kind="delivery gate", known=[e for e in known if "witness" in e.get("match", {})]),
              dict(fn="unit_gate", in_interrupt=True, kind="no delivery inside a handler"),
              dict(fn="unit_halt", kind="halt wake-up"),
-             dict(fn="unit_reti", kind="end of handler (RETI step)")]
+             dict(fn="unit_reti", kind="end of handler (RETI step)"),
+             dict(fn="unit_off", op="OFF", kind="powered-off CPU stops both timers"),
+             dict(fn="unit_off", op="HALT", kind="contrast: halted CPU keeps its timers")]
     reps = common.run_units("contracts.irq:unit_any", units, budget=900)
     reps += common.run_units("contracts.cpu_lemmas:unit_lemmas", [dict(kind="IR/RETI inverse lemma (with C05)")], budget=300)
     v.absorb(reps, known)
